@@ -14,12 +14,24 @@ CharHolder == StructT(<<Fld(Nm(97), U8, "plain", FALSE, <<>>), Fld(Nm(99), CH, "
                       <<Stp("Added", Nm(99), <<0, 0, 120>>)>>)
 Types == {CH, OptT(CH), [k |-> "vec", e |-> CH], [k |-> "tup", es |-> <<U8, CH, STR>>], [k |-> "res", a |-> CH, b |-> U8],
           [k |-> "hmap", a |-> U8, b |-> CH], CharHolder, [k |-> "box", e |-> CH]}
-\* dangling evolution reference; a record at the limit of 254 declared steps (255 with the initial version)
-Dangling == StructT(<<Fld(Nm(97), U8, "plain", FALSE, <<>>)>>, <<Stp("MadeOptional", Nm(122), <<>>)>>)
+\* evolution steps that name a field the record does not have ("ghost": the usual mistake of deleting a
+\* field without a FieldRemoved step), alone and combined with each other and with a step on a real field:
+\* all step lists up to GhostLen.  Only FieldMadeOptional needs the field: it is an error unless the name
+\* was also removed / made transient.  A record at the limit of 254 declared steps (255 with the initial version)
+CONSTANT GhostLen
+Ghost == Nm(122)
+OptF == Nm(111)
+GhostFields == <<Fld(Nm(97), U8, "plain", FALSE, <<>>), Fld(OptF, OptT(U8), "plain", FALSE, <<>>)>>
+StepPool == {Stp("Added", Ghost, <<>>), Stp("MadeOptional", Ghost, <<>>), Stp("Removed", Ghost, <<>>), Stp("MadeTransient", Ghost, <<>>),
+             Stp("MadeOptional", OptF, <<>>)}
+StepLists == UNION {[1..n -> StepPool] : n \in 1..GhostLen}
+Danglings == {StructT(GhostFields, sl) : sl \in {x \in StepLists : \E i \in 1..Len(x) : x[i].n = Ghost}}
+IsDangling(D) == \E i \in 1..Len(D.steps) :
+   D.steps[i].op = "MadeOptional" /\ FieldIdx(D, D.steps[i].n) = 0 /\ D.steps[i].n \notin RemovedNames(D.steps)
 BigName(i) == <<114, 48 + (i \div 100), 48 + ((i \div 10) % 10), 48 + (i % 10)>>
 AtLimit == StructT(<<Fld(Nm(97), U8, "plain", FALSE, <<>>), Fld(Nm(98), STR, "plain", FALSE, <<>>)>>,
                    [i \in 1..254 |-> Stp("Removed", BigName(i), <<>>)])
-DeclTypes == {Dangling, AtLimit}
+DeclTypes == Danglings \cup {AtLimit}
 Init == T \in Types \cup DeclTypes
 Next == UNCHANGED T
 Spec == Init /\ [][Next]_T
@@ -41,7 +53,7 @@ Encodable(c) == Len(c) = 3
 EncTotal ==
   IF T \in DeclTypes
   THEN \A v \in StructVals(T) : LET e == Encode(T, v) IN
-         IF T = Dangling THEN e = EErr("UnknownFieldRef")
+         IF T \in Danglings /\ IsDangling(T) THEN e = EErr("UnknownFieldRef")
          ELSE e.ok /\ LET d == Decode(T, e.b) IN d.ok /\ d.v = v /\ d.p = Len(e.b) + 1
   ELSE \A i \in 1..Len(Chars) : LET e == Encode(T, Wrap(Chars[i])) IN
          IF Encodable(Chars[i]) THEN e.ok ELSE e = EErr("UnsupportedChar")
